@@ -4,6 +4,7 @@ set -u
 out="$1"; shift
 mkdir -p "$out"
 cd /verif
+bak="$(mktemp -d /tmp/evbak.XXXXXX)"; cp -r evidence "$bak/"   # seeded runs must not leave their evidence behind
 for spec in "$@"; do
   name="${spec%%:*}"; ids="${spec#*:}"
   [ "$ids" = "$spec" ] && ids="${name%%-*}"
@@ -16,3 +17,4 @@ for spec in "$@"; do
   git -C /repo checkout -- .
   echo "== $name: $(grep -c VIOLATION "$out/$name.log") violation line(s)"
 done
+rm -rf evidence && mv "$bak/evidence" evidence && rmdir "$bak"
